@@ -2,6 +2,8 @@ CONSTANTS
   BB = 3
   WB = 1
   MaxN = 10
+  LemmaP = 2
+  LemmaN = 4
   MaxK = 2
 SPECIFICATION Spec
 INVARIANTS Built Sorted Building RankLoopInv BSearchInv ScanInv Result DefLemmas MeasureNat NotStuck
